@@ -3,6 +3,8 @@ import MosnVerif.Model.TlsSelect
 import MosnVerif.Model.TlsUpdate
 import MosnVerif.Drive.TlsTrustDrive
 import MosnVerif.Drive.TlsConnDrive
+import MosnVerif.Drive.TlsSdsDrive
+import MosnVerif.Drive.TlsAcceptDrive
 /-!
 Driver of C13. Case kinds (the first token after the kind is a class label computed by the generator, ignored here):
   sel|hs <cls> <ctxs> <sni> <protos>            => <index|err|nil>     GetConfigForClient directly / through a handshake
@@ -19,6 +21,8 @@ Driver of C13. Case kinds (the first token after the kind is a class label compu
         then a plaintext connection with that first byte and a TLS handshake; stored = the listener's Config()
   res <cls> <require> <verify> <peer> <none|clock|caswap> => ok|fail ok|fail r|f   full handshake, change, second handshake
         offering the session ticket; r = the server reports DidResume
+  sdsu: one sds-backed context under configuration updates and secret pushes, see Drive/TlsSdsDrive.lean
+  odst: the accept path of a use_original_dst listener on the real handler, see Drive/TlsAcceptDrive.lean
   cconn: the real clientConnection.Connect against scripted upstreams (no downgrade), see Drive/TlsConnDrive.lean
   trust2 / trustc2: trust anchors over the host's root store and the configured ca_cert, see Drive/TlsTrustDrive.lean
 Strings: `~` = empty, `%xx` escapes; lists joined by `+`, `-` = empty list; ctx = `r|n:cn:sans:alpncfg:servername`,
@@ -215,6 +219,8 @@ def run (caseToks impl : List String) : String :=
       verdict (showCres (clientConn ready hook ins sn cert hok)) r (specClientConn hook ins sn cert hok cr)
     | _, _, _, _, _, _, _ => "E E bad-case"
   | "cconn" :: _, _ => MosnVerif.Drive.TlsConnDrive.run caseToks impl
+  | "sdsu" :: _, _ => MosnVerif.Drive.TlsSdsDrive.run caseToks impl
+  | "odst" :: _, _ => MosnVerif.Drive.TlsAcceptDrive.run caseToks impl
   | _, _ => MosnVerif.Drive.TlsTrustDrive.run caseToks impl
 
 end MosnVerif.Drive.C13
